@@ -50,7 +50,7 @@ var scenarios = []scenario{
 	{Name: "confirms||top,account", Prefix: []string{"ins a1"}, Threads: [][]string{{"cf a1 1"}, {"top a1", "acct"}}, BoundQuick: 2, BoundThor: 3, ShardsQuick: 1, ShardsThor: 2},
 	{Name: "batch-task||tryconfirm", Prefix: []string{"ins a1", "ins b1", "ins b2", "cf b2 0,1"}, Threads: [][]string{{"ins b3"}}, LastPrefixBG: true, BoundQuick: 2, BoundThor: 3, ShardsQuick: 3, ShardsThor: 4},
 	{Name: "confirms||confirms", Prefix: []string{"ins a1"}, Threads: [][]string{{"cf a1 1"}, {"cf a1 2"}}, BoundQuick: 2, BoundThor: 3, ShardsQuick: 2, ShardsThor: 3},
-	{Name: "insert||confirms||getconfirms", Prefix: []string{"ins a1"}, Threads: [][]string{{"ins a2"}, {"cf a1 1"}, {"unconfirmed a1"}}, BoundQuick: 1, BoundThor: 2, ShardsQuick: 2, ShardsThor: 4},
+	{Name: "insert||confirms||getconfirms", Prefix: []string{"ins a1"}, Threads: [][]string{{"ins a2"}, {"cf a1 1"}, {"confirms a1"}}, BoundQuick: 1, BoundThor: 2, ShardsQuick: 2, ShardsThor: 4},
 }
 
 func (sc *scenario) bound() int {
@@ -92,6 +92,7 @@ func (sc *scenario) prepare() (*inst, []bgTask) {
 			drainBG()
 		}
 	}
+	in.drainFeeds() // what the prefix emitted is not part of the concurrent part's outcome
 	return in, keep
 }
 
@@ -166,28 +167,28 @@ func (sc *scenario) sequential() seqResult {
 // controlled exploration of one scenario (one shard)
 
 type scStats struct {
-	Schedules      int            `json:"schedules"`
-	Steps          int64          `json:"scheduling_steps"`
-	Expanded       int64          `json:"decision_states_expanded"`
-	PrunedAtSeen   int64          `json:"schedules_cut_at_an_already_expanded_state"`
-	MaxPreempt     int            `json:"max_preemptions_in_a_schedule"`
-	BoundDone      int            `json:"preemption_bound_completed"`
-	Bound          int            `json:"preemption_bound"`
-	SeqOrders      int            `json:"sequential_orders"`
-	SeqOutcomes    int            `json:"sequential_outcomes"`
-	Outcomes       map[string]int `json:"-"`
-	Distinct       int            `json:"distinct_outcomes"`
-	SeqReached     int            `json:"sequential_outcomes_reached"`
-	BranchSites    []string       `json:"preemption_point_classes"`
-	WriterSections []string       `json:"writer_sections_of_ChainDatabase.RW"`
-	Restarts       int            `json:"restarts_after_learning_a_new_preemption_point_class"`
-	LateSites      []string       `json:"-"`
-	Threads        map[string]int `json:"threads_seen"`
-	MaxThreads     int            `json:"max_threads_in_a_schedule"`
-	Truncated      bool           `json:"cut_by_deadline"`
-	Shards         int            `json:"shards"`
+	Schedules      int             `json:"schedules"`
+	Steps          int64           `json:"scheduling_steps"`
+	Expanded       int64           `json:"decision_states_expanded"`
+	PrunedAtSeen   int64           `json:"schedules_cut_at_an_already_expanded_state"`
+	MaxPreempt     int             `json:"max_preemptions_in_a_schedule"`
+	BoundDone      int             `json:"preemption_bound_completed"`
+	Bound          int             `json:"preemption_bound"`
+	SeqOrders      int             `json:"sequential_orders"`
+	SeqOutcomes    int             `json:"sequential_outcomes"`
+	Outcomes       map[string]int  `json:"-"`
+	Distinct       int             `json:"distinct_outcomes"`
+	SeqReached     int             `json:"sequential_outcomes_reached"`
+	BranchSites    []string        `json:"preemption_point_classes"`
+	WriterSections []string        `json:"writer_sections_of_ChainDatabase.RW"`
+	Restarts       int             `json:"restarts_after_learning_a_new_preemption_point_class"`
+	LateSites      []string        `json:"-"`
+	Threads        map[string]int  `json:"threads_seen"`
+	MaxThreads     int             `json:"max_threads_in_a_schedule"`
+	Truncated      bool            `json:"cut_by_deadline"`
+	Shards         int             `json:"shards"`
 	FinalStates    map[string]bool `json:"-"`
-	DistinctFinals int            `json:"distinct_final_partial_orders"`
+	DistinctFinals int             `json:"distinct_final_partial_orders"`
 }
 
 type replayRec struct {
@@ -431,7 +432,7 @@ func (sc *scenario) check(r *core.Result, st *scStats, seq seqResult, in *inst, 
 	}
 	ob := in.observe()
 	for _, b := range ob.Bad {
-		r.Violate(prop+"/bad-signature/"+sc.Name+"/"+core.Hash(b)[:8], "scenario "+sc.Name+": "+b+"; outcome: "+ob.Outcome, rp)
+		r.Violate(prop+"/bad-signature/"+sc.Name+"/"+b[0], "scenario "+sc.Name+": "+b[1]+"; outcome: "+ob.Outcome, rp)
 	}
 	if _, ok := seq.Outcomes[ob.Outcome]; !ok {
 		var l []string
